@@ -26,6 +26,10 @@ type Entry struct {
 	Quick  int                                    // protos that get the exhaustive one-field-at-a-time sweep in the quick tier: 0 = the first, n > 0 = the first n, -1 = none (all of them in thorough)
 	AllocC uint64                                 // allocation bound: AllocC*len(in) + AllocK
 	AllocK uint64
+	// Fix re-commits a mutated message in place so that it passes the validation stages in front of the
+	// mutated field (roots, seal commitment; reseal.go); reports whether it changed anything.  Every
+	// structured mutation of an entry with a Fix is fed twice: as mutated, and re-committed.
+	Fix func(m proto.Message) bool
 }
 
 func must[T any](v T, err error) T {
@@ -211,11 +215,12 @@ func networkEntries() []*Entry {
 	current := currentHeaderWO()
 	nodes := []struct {
 		name string
+		ctx  int
 		g    *pubsubManager.VerifC15Gossip
 	}{
-		{"zone", pubsubManager.VerifC15NewGossip(common.Location{0, 0}, current)},
-		{"region", pubsubManager.VerifC15NewGossip(common.Location{0}, current)},
-		{"prime", pubsubManager.VerifC15NewGossip(common.Location{}, current)},
+		{"zone", common.ZONE_CTX, pubsubManager.VerifC15NewGossip(common.Location{0, 0}, current)},
+		{"region", common.REGION_CTX, pubsubManager.VerifC15NewGossip(common.Location{0}, current)},
+		{"prime", common.PRIME_CTX, pubsubManager.VerifC15NewGossip(common.Location{}, current)},
 	}
 	gossip := func(name string, datatype interface{}, protos []proto.Message, shallow func(in []byte) bool) {
 		for _, nd := range nodes {
@@ -230,7 +235,16 @@ func networkEntries() []*Entry {
 			if name == "ShareView" {
 				quick = 3
 			}
-			es = append(es, &Entry{Name: "gossip." + name + "@" + nd.name, Protos: protos, Quick: quick, AllocK: 8 << 20, // signature verification: constant ~1.5 MB of big-number work
+			var fix func(m proto.Message) bool
+			switch name {
+			case "BlockView":
+				fix = resealer(resealBlock, nd.ctx)
+			case "HeaderView":
+				fix = resealer(resealHeader, nd.ctx)
+			case "ShareView":
+				fix = resealer(resealShare, nd.ctx)
+			}
+			es = append(es, &Entry{Name: "gossip." + name + "@" + nd.name, Protos: protos, Quick: quick, Fix: fix, AllocK: 8 << 20, // signature verification: constant ~1.5 MB of big-number work
 				Fn: func(in []byte) (bool, error) {
 					res, err := nd.g.Validate(datatype, in)
 					if err != nil {
